@@ -12,7 +12,7 @@ import z3
 from .interp import (PyRaise, NeedFork, Infeasible, is_pynum, kind_of, zof, join_kind, mk, zbool, FP, RNE)
 from .values import (S, VOpt, VQty, VTime, VDelta, VEnum, SEnum, VRec, VRef, HObj, HList, HDict,
                      HSet, SymSeq, SymSet, SymMap, FuncRef, ClassRef, ModRef, ExtRef,
-                     BoundBuiltin, Opaque, Unsupported, fresh_name, zreal)
+                     BoundBuiltin, Opaque, Unsupported, fresh_name, zreal, KeySetVal, HKeySet)
 
 BUILTINS = {
     "max", "min", "abs", "len", "sum", "all", "any", "isinstance", "float", "int", "bool", "set",
@@ -388,6 +388,8 @@ def call_bound(it, f: BoundBuiltin, args, kwargs):
             return dict_method(it, t, h, name, args, kwargs)
         if isinstance(h, HSet):
             return set_method(it, t, h, name, args, kwargs)
+        if isinstance(h, HKeySet):
+            return keyset_method(it, t, h, name, args, kwargs)
     if isinstance(t, frozenset):
         if name == "union":
             out = set(t)
@@ -638,6 +640,26 @@ def set_method(it, ref, h, name, args, kwargs):
     raise Unsupported(f"set.{name}")
 
 
+def keyset_method(it, ref, h, name, args, kwargs):
+    from . import keysets
+    eng = it.engine
+    if name == "add":
+        it.ctx.mutate()
+        h.val = keysets.add(eng, it, h.val, args[0])
+        return None
+    if name == "remove":
+        it.ctx.mutate()
+        h.val = keysets.remove(eng, it, h.val, args[0], must_exist=True)
+        return None
+    if name == "discard":
+        it.ctx.mutate()
+        h.val = keysets.remove(eng, it, h.val, args[0], must_exist=False)
+        return None
+    if name == "copy":
+        return it.ctx.alloc(HKeySet(h.val))
+    raise Unsupported(f"set-of-records.{name}")
+
+
 def sort_concrete(it, items, key=None, reverse=False):
     """sorted() on a list of concrete length: insertion sort with symbolic comparisons (stable)."""
     _use(it, "model:sorted/list.sort is a stable sort by __lt__ (on keys)")
@@ -843,6 +865,9 @@ def call_builtin(it, name, args, kwargs):
             h = it.ctx.deref(x)
             if isinstance(h, (HList, HDict, HSet)):
                 return len(h.items)
+            if isinstance(h, HKeySet):
+                from . import keysets
+                return mk(keysets.enumeration(it.engine, it, h.val).length, "int")
             return it.call_method(x, "__len__", [], {})
         if isinstance(x, SymSeq):
             return mk(x.length, "int")
@@ -958,7 +983,7 @@ def call_builtin(it, name, args, kwargs):
     if name == "reversed":
         return tuple(reversed(it.iterate_concrete(args[0])))
     if name == "sorted":
-        seq = args[0]
+        seq = it.as_symbolic_iterable(args[0])
         if isinstance(seq, (SymSeq, SymSet)):
             return it.engine.sorted_symbolic(it, seq, kwargs)
         return it.ctx.alloc(HList(sort_concrete(it, it.iterate_concrete(seq), kwargs.get("key"),
